@@ -41,6 +41,16 @@ class _Continue(Exception):
     pass
 
 
+class Obj:
+    """A witness object: attribute loads / stores on it are interpreted (`self.value = ...`)."""
+
+    def __init__(self, **attrs):
+        self.__dict__.update(attrs)
+
+    def __repr__(self):
+        return f"Obj({self.__dict__})"
+
+
 class Interp:
     def __init__(self, ctx, module, call_hook: Optional[Callable] = None, max_depth=3, cls=None):
         self.ctx, self.module, self.hook, self.max_depth, self.cls = ctx, module, call_hook, max_depth, cls
@@ -48,9 +58,42 @@ class Interp:
 
     # ------------------------------------------------------------------ expressions
     def ev(self, e, env, depth=0):
-        v = self.ctx.folder.eval(e, self.module, env=env)
+        if isinstance(e, ast.Attribute) and isinstance(e.value, ast.Name) and isinstance(env.get(e.value.id), Obj):
+            o = env[e.value.id]
+            if e.attr in o.__dict__:
+                return o.__dict__[e.attr]
+            raise _Unknown(f"attribute {e.value.id}.{e.attr} has no witness value")
+        if self._mentions_obj(e, env):
+            v = UNKNOWN
+        else:
+            v = self.ctx.folder.eval(e, self.module, env=env)
         if v is not UNKNOWN:
             return v
+        if isinstance(e, ast.Compare) and len(e.ops) == 1:
+            a, b = self.ev(e.left, env, depth), self.ev(e.comparators[0], env, depth)
+            op = e.ops[0]
+            if isinstance(op, ast.Is):
+                return a is b
+            if isinstance(op, ast.IsNot):
+                return a is not b
+            if isinstance(op, ast.Eq):
+                return a == b
+            if isinstance(op, ast.NotEq):
+                return a != b
+            if isinstance(op, ast.In):
+                return a in b
+            if isinstance(op, ast.NotIn):
+                return a not in b
+        if isinstance(e, ast.UnaryOp) and isinstance(e.op, ast.Not):
+            return not self.ev(e.operand, env, depth)
+        if isinstance(e, ast.JoinedStr):
+            parts = []
+            for v_ in e.values:
+                if isinstance(v_, ast.Constant):
+                    parts.append(str(v_.value))
+                else:
+                    parts.append(str(self.ev(v_.value, env, depth)))
+            return "".join(parts)
         if isinstance(e, ast.Call):
             if self.hook is not None:
                 r = self.hook(e, env, self)
@@ -88,6 +131,10 @@ class Interp:
             vals = [self.ev(x, env, depth) for x in e.elts]
             return tuple(vals) if isinstance(e, ast.Tuple) else vals
         raise _Unknown(f"expression not foldable: {ast.unparse(e)[:80]}")
+
+    @staticmethod
+    def _mentions_obj(e, env):
+        return any(isinstance(x, ast.Name) and isinstance(env.get(x.id), Obj) for x in ast.walk(e))
 
     # ------------------------------------------------------------------ statements
     def call(self, func, env, depth=0):
@@ -153,14 +200,33 @@ class Interp:
             elif isinstance(st, ast.Continue):
                 raise _Continue()
             elif isinstance(st, ast.Try):
-                self.block(st.body, env, depth)
-                self.block(st.orelse, env, depth)
+                try:
+                    self.block(st.body, env, depth)
+                except _Raise as r:
+                    from .cfg import exc_is_subclass, handler_catches_all, handler_names
+
+                    for h in st.handlers:
+                        names = handler_names(h)
+                        if handler_catches_all(h) or any(n_ == r.name or exc_is_subclass(r.name, n_) for n_ in names if n_):
+                            if h.name:
+                                env[h.name] = f"<{r.name}>"
+                            self.block(h.body, env, depth)
+                            break
+                    else:
+                        self.block(st.finalbody, env, depth)
+                        raise
+                else:
+                    self.block(st.orelse, env, depth)
                 self.block(st.finalbody, env, depth)
             else:
                 raise _Unknown(f"statement kind {type(st).__name__}")
 
     def effect(self, e, env, depth):
         # calls for effect: logging is ignored, list/dict mutators on environment objects are applied
+        if isinstance(e, ast.Call) and self.hook is not None:
+            r = self.hook(e, env, self)
+            if r is not UNKNOWN:
+                return
         if isinstance(e, ast.Call) and isinstance(e.func, ast.Attribute):
             recv = e.func.value
             rn = ast.unparse(recv)
@@ -185,6 +251,8 @@ class Interp:
         elif isinstance(t, ast.Subscript) and isinstance(t.value, ast.Name) and t.value.id in env and isinstance(env[t.value.id], (dict, list)):
             k = self.ev(t.slice, env, depth)
             env[t.value.id][k] = v
+        elif isinstance(t, ast.Attribute) and isinstance(t.value, ast.Name) and isinstance(env.get(t.value.id), Obj):
+            env[t.value.id].__dict__[t.attr] = v
         else:
             raise _Unknown(f"store target {ast.unparse(t)[:40]}")
 
@@ -197,11 +265,14 @@ def _load(t):
     return t2
 
 
-def run_function(ctx, module, func, env, call_hook=None):
+Raise = _Raise  # a call hook may `raise Raise("DataError")` to model a callee that fails
+
+
+def run_function(ctx, module, func, env, call_hook=None, deep=True):
     """('return', value) | ('raise', exception name) | ('unknown', reason).  `env` is copied deeply first."""
     it = Interp(ctx, module, call_hook)
     try:
-        return "return", it.call(func, copy.deepcopy(env))
+        return "return", it.call(func, copy.deepcopy(env) if deep else env)
     except _Raise as r:
         return "raise", r.name
     except _Unknown as u:
